@@ -29,6 +29,7 @@ try:
                   'ALWAYS pseudo-file': 'present, may be a dependency'}
     chk.assumptions += depscheck.ASSUMPTIONS
     depscheck.kernel_agreement(chk, N, E, goals=True)
+    depscheck.validate_kernel(chk, rep, n=(60 if chk.thorough() else 24))
     orchestration.unlocked_reevaluates(chk)
     from specs import buildjob, buildworld
     buildworld.install(eng)
